@@ -16,6 +16,7 @@ package funnel
 
 import (
 	"context"
+	"slices"
 
 	"github.com/conduitio/conduit-commons/rollback"
 	"github.com/conduitio/conduit/pkg/foundation/cerrors"
@@ -104,16 +105,19 @@ func (s *Sink) Open(ctx context.Context) (err error) {
 		err = cerrors.LogOrReplace(err, rollbackErr, func() {})
 	}()
 
+	var tasks []Task
 	for _, root := range s.roots {
-		for task := range root.Tasks() {
-			err = task.Open(ctx)
-			if err != nil {
-				return cerrors.Errorf("task %s failed to open: %w", task.ID(), err)
-			}
-			r.Append(func() error {
-				return task.Close(ctx)
-			})
+		tasks = slices.AppendSeq(tasks, root.Tasks())
+	}
+	for i, task := range tasks {
+		err = task.Open(ctx)
+		if err != nil {
+			releaseUnopenedProcessors(ctx, tasks[i+1:])
+			return cerrors.Errorf("task %s failed to open: %w", task.ID(), err)
 		}
+		r.Append(func() error {
+			return task.Close(ctx)
+		})
 	}
 
 	r.Skip()
